@@ -20,7 +20,7 @@ ASSUMPTIONS = [
     "the expected bytes come from the directive model in this file (two's complement at the directive's width, high byte first)",
     "an FCC string cannot contain its own delimiter; the delimiter is the first non-blank character of the operand",
 ]
-HEALTH = {"dir:FCB": 0.1, "dir:FDB": 0.1, "dir:FCC": 0.15, "dir:RMB": 500, "has_symbol": 0.05, "must_reject": 0.02}
+HEALTH = {"dir:FCB": 0.04, "dir:FDB": 0.04, "dir:FCC": 0.06, "dir:RMB": 200, "has_symbol": 0.02, "must_reject": 0.008}
 EXHAUSTIVE = {"quick": ["FCC: 94 delimiters x 14 catalogue strings", "FCB/FDB single value: boundary grid x every spelling",
                         "RMB: boundary grid"], "thorough": ["as quick"]}
 
